@@ -50,8 +50,14 @@ def run(ctx):
             if r < 0.45:
                 ci = rng.randrange(len(contents))
                 k = rng.choice(keys[:-2])  # the last two keys are never written
-                batch.append({"mode": m, "req": {"op": "write", "cache": cache, "key": k, "algo": algos[ci],
-                                                 "data": ctx.data(contents[ci])}, "data": contents[ci]})
+                if rng.random() < 0.3:
+                    # explicit timestamps, also far in the future: a later removal must win regardless
+                    batch.append({"mode": m, "req": {"op": "writer", "cache": cache, "key": k,
+                                                     "opts": {"algo": algos[ci], "time": str(gen.time_value(rng))},
+                                                     "chunks": [ctx.data(contents[ci])]}, "data": contents[ci]})
+                else:
+                    batch.append({"mode": m, "req": {"op": "write", "cache": cache, "key": k, "algo": algos[ci],
+                                                     "data": ctx.data(contents[ci])}, "data": contents[ci]})
             elif r < 0.52:
                 ci = rng.randrange(len(contents))
                 batch.append({"mode": m, "req": {"op": "write_hash", "cache": cache, "algo": algos[ci],
